@@ -207,8 +207,11 @@ def run_protocol(ctx, binary, drv):
         # harness error (the scenarios after it are dropped and counted), never a violation
         return ctx.go_run(binary, "TestVerifC06Proto", ops, timeout=max(120, len(ops) // 4))
 
-    def pline(quiet, labels):
-        return f"prun quiet={int(quiet)} | " + " ".join(labels)
+    def pline(quiet, labels, mp=0):
+        return f"prun quiet={int(quiet)} map={mp} | " + " ".join(labels)
+
+    def map_of(op):
+        return int(fields(op.partition("|")[0]).get("map", 0))
 
     def fields(line):
         return dict(w.split("=", 1) for w in line.split() if "=" in w)
@@ -248,8 +251,11 @@ def run_protocol(ctx, binary, drv):
                 ctx.notes.append("driver pgen failed: " + o[:80])
                 continue
             labs, _, rest = o.partition(" ")
+            # subscription options: regular presence alone, or combined with a map client / user presence
+            # channel (then Client.removeMapPresence is the routine that removes the regular entry)
+            mp = ctx.rng.choice([0, 0, 1, 2])
             run_ops.append(with_exp(pline("quiet=1" in g.split("|")[0],
-                                          [l for l in labs[len("labels="):].split(",") if l]), rest))
+                                          [l for l in labs[len("labels="):].split(",") if l], mp), rest))
             expected.append(core(rest))
     out = impl(run_ops)
     if ctx.last_go_crash:
@@ -267,6 +273,8 @@ def run_protocol(ctx, binary, drv):
             # one reached by this prefix of the schedule (a schedule of the real code in its own right)
             labels = labels[:int(fields(o)["diverged"]) + 1]
         quiet = "quiet=1" in op.partition("|")[0]
+        mp = map_of(op)
+        ctx.count(f"proto:map={mp}")
         ctx.record(op, nontrivial=len(set(l[0] for l in labels)) >= 2)
         ctx.count("proto:quiet" if quiet else "proto:free")
         for l in labels:
@@ -275,7 +283,7 @@ def run_protocol(ctx, binary, drv):
         ctx.count("proto-oracle:" + (msg or "holds"))
         if msg is None:
             continue
-        cls = (msg, quiet, "T" in labels, "C" in labels)
+        cls = (msg, quiet, "T" in labels, "C" in labels, mp)
         seen[cls] = seen.get(cls, 0) + 1
         if seen[cls] > 1:
             continue
@@ -290,20 +298,21 @@ def run_protocol(ctx, binary, drv):
                 if not cands:
                     continue
                 budget -= 1
-                mo = model([pline(quiet, c) for c in cands])
+                mo = model([pline(quiet, c, mp) for c in cands])
                 hit = next((c for c, m in zip(cands, mo) if m.startswith("chan=") and
                             proto_oracle(m + " | info=ok stats=" + ("1/1" if "present=1" in m else "0/0")) == msg), None)
                 if hit is not None:
                     cur, progress = hit, True
                     break
-        sop = pline(quiet, cur)
+        sop = pline(quiet, cur, mp)
         sout = impl([sop])
         if not sout or proto_oracle(sout[0]) != msg:
-            cur, sop = labels, pline(quiet, labels)
+            cur, sop = labels, pline(quiet, labels, mp)
             sout = impl([sop])
             if not sout or proto_oracle(sout[0]) != msg:
                 sout = [o]
-        sig = {"part": "proto", "violation": msg, "quiet": quiet, "tick": "T" in cur, "close": "C" in cur}
+        sig = {"part": "proto", "violation": msg, "quiet": quiet, "tick": "T" in cur, "close": "C" in cur,
+               "map_presence": mp}
         ctx.violation("property", f"protocol: {msg} at a settled point: {sout[0]}", signature=sig,
                       replay={"part": "proto", "ops": [sop], "impl": sout, "original_op": op})
     ctx.extra["proto_violation_classes_seen"] = {str(k): v for k, v in seen.items()}
